@@ -629,6 +629,36 @@ def _gen_expr(rng, depth, bad=0.0, heavy=0):
     return ["fn", f, [_gen_expr(rng, depth - 1, bad, heavy)]]
 
 
+NARY_LADDER = [9, 15, 16, 17, 18, 31, 32, 33, 34, 48, 63, 64, 65, 100, 129]
+
+
+def _gen_wide_nary(rng):
+    """ONE sum / product with many operands (sympy flattens the chain into a single n-ary Add / Mul): the property has no
+    bound on the number of operands, so n crosses the round numbers where a chunked / pairwise / recursive reduction sits"""
+    n = rng.choice(NARY_LADDER)
+    x = ["sym", rng.choice(["x", "y"])]
+    y = ["sym", "z"]
+    style = rng.choice(["cos", "shift", "pow", "mixed"])
+    def operand(k):
+        if style == "cos":
+            return ["fn", rng.choice(["cos", "sin"]) if k % 7 else "cos", [["mul", ["int", k + 1], x]]]
+        if style == "shift":
+            return ["add", x, ["int", k + 1]] if k % 2 else ["sub", y, ["rat", f"{k + 1}/2"]]
+        if style == "pow":
+            return ["mul", ["rat", f"1/{k + 1}"], ["pow", x, ["int", k % 9 + 1]]] if k % 3 else ["fn", "cos", [["mul", ["int", k + 1], y]]]
+        return rng.choice([["fn", "sin", [["add", x, ["int", k]]]], ["mul", ["int", k + 2], ["pow", y, ["int", 2]]],
+                           ["div", x, ["int", k + 3]], ["sqrt", ["add", ["pow", x, ["int", 2]], ["int", k + 1]]]])
+    op = rng.choice(["add", "mul"]) if style != "pow" else "add"
+    if op == "mul" and style == "cos":
+        style = "shift"
+    t = operand(0)
+    for k in range(1, n):
+        t = [op, t, operand(k)]
+    if rng.random() < 0.4:   # the wide node below another node
+        t = rng.choice([["neg", t], ["mul", ["int", 3], t] if op == "add" else ["add", ["int", 1], t], ["fn", "cos", [t]] if op == "add" else ["sub", t, x]])
+    return t
+
+
 def _gen_noncanon(rng, depth):
     if depth <= 0 or rng.random() < 0.2:
         return _leaf(rng, allow_I=False)
@@ -988,6 +1018,8 @@ def generate(rng, tier):
         b = rng.choice(_context_templates(a_, b_, c_) if rng.random() < (0.7 if b_[0] == "symstr" else 0.3) else _pair_templates(a_, b_, c_))
         cases.append({"kind": "expr", "b": b, "pts": _pts(rng, 1), "ord": rng.randrange(2),
                       **({"noncanon": True} if any(_get(b, p)[0] in ("add_ne", "mul_ne", "pow_ne") for p in _paths(b)) else {})})
+    for _ in range(60 if big else 12):   # operand-count ladder of the n-ary nodes
+        cases.append({"kind": "expr", "b": _gen_wide_nary(rng), "pts": _pts(rng, 1), "ord": rng.randrange(2)})
     n_exact = 0
     for _ in range(2000 if big else 300):   # exotic numbers: huge / negative / zero integers in rational functions
         if n_exact >= (100 if big else 16):
